@@ -254,9 +254,9 @@ def check_string(text, exclude=()):
     except ValueError:
         info["foreign"] = True           # tuples, slices, ... : outside the listed constructs
         return None, info
-    if "tuple" in T.kinds(t) or any(isinstance(x, list) for x in _consts(t)):
-        info["foreign"] = True
-        return None, info
+    if "tuple" in T.kinds(t) or any(isinstance(x, list) for x in _consts(t)) or _lookup_of_literal(t):
+        info["foreign"] = True           # attribute lookups are not among the listed constructs; on a literal
+        return None, info                # ("1 .real") pymbolic prints them as "1.real", which is a float token
     info["tree"] = t
     for f, pred in FEATURES.items():
         if f in exclude and pred(t):
@@ -266,6 +266,12 @@ def check_string(text, exclude=()):
         info["ill_typed"] = True
         return None, info
     return check_expr(t), info
+
+
+def _lookup_of_literal(t):
+    if t[0] == "lookup" and t[1][0] == "const":
+        return True
+    return any(_lookup_of_literal(c) for c in T.children(t))
 
 
 def _consts(t):
